@@ -320,7 +320,18 @@ def post_C13(cases, xs):
         if chk == "hash:t":
             h[name] = detail
     findings = []
-    stats = {"pairs": 0, "control_changed": 0, "controls": 0}
+    stats = {"pairs": 0, "control_changed": 0, "controls": 0, "histories": 0}
+    # the same contents reached through a history (other kinds first, imported files removed again): same results
+    allh = {}
+    for name, chk, verdict, detail in xs:
+        if chk.startswith("hash:"):
+            allh.setdefault(name, {})[chk] = detail
+    for name, d in allh.items():
+        if name.endswith("_h") and name[:-2] in allh:
+            stats["histories"] += 1
+            if allh[name[:-2]] != d:
+                findings.append({"case": name, "kind": "impl", "check": "perturb", "partner": name[:-2],
+                                 "detail": "results differ between the project built fresh and the same contents reached through a history"})
     for name, v in h.items():
         if name.endswith("_base"):
             k = name[:-5]
@@ -664,3 +675,85 @@ def gen_C18(rng, tier):
                           "expect_doc": ("target", exp[j] if has is not None else None), "note": name})
             k += 1
     return cases
+
+
+# ------------------------------------------------------------------ the same projects, reached through a history
+ITEM_RE = re.compile(r"\b(interface|parcelable|enum)\s+([A-Za-z_][A-Za-z0-9_]*)")
+PKG_RE = re.compile(r"\bpackage\s+([A-Za-z_][A-Za-z0-9_.]*)\s*;")
+IMPORT_RE = re.compile(r"\bimport\s+([A-Za-z_][A-Za-z0-9_.]*)\s*;")
+
+
+def historize(files, rng):
+    """operations that end with exactly these contents but pass through other states first: items that later change
+    kind (same id, same key), files defining an imported key that are removed again, validations in between.
+    The last step is either a removal or a replacement, with nothing after it but the final validate()."""
+    final, order = {}, []
+    for fid, t in files:
+        if fid not in final:
+            order.append(fid)
+        final[fid] = t
+    keys = set()
+    for t in final.values():
+        m, pk = ITEM_RE.search(t), PKG_RE.search(t)
+        if m and pk:
+            keys.add(pk.group(1) + "." + m.group(2))
+    ops = []
+    variant = rng.choice(["replace", "remove", "mix"])
+    replaced = []
+    for fid in order:
+        t = final[fid]
+        m, pk = ITEM_RE.search(t), PKG_RE.search(t)
+        r = rng.random()
+        if m and pk and variant != "remove" and r < 0.7:
+            other = rng.choice([k for k in ("interface", "parcelable", "enum") if k != m.group(1)])
+            ops.append(("add", fid, f"package {pk.group(1)}; {other} {m.group(2)} {{}}"))
+            replaced.append(fid)
+        elif r < 0.85:
+            ops.append(("add", fid, t))
+    extras = []
+    if variant != "replace":
+        for fid in order:
+            for q in IMPORT_RE.findall(final[fid]):
+                if q not in keys and "." in q and rng.random() < 0.8:
+                    pkg, name = q.rsplit(".", 1)
+                    xid = f"x{len(extras)}"
+                    extras.append(xid)
+                    keys.add(q)
+                    ops.append(("add", xid, f"package {pkg}; {rng.choice(['interface', 'parcelable', 'enum'])} {name} {{}}"))
+    rest = [fid for fid in order if fid not in replaced]
+    rng.shuffle(rest)
+    for fid in rest:
+        ops.append(("add", fid, final[fid]))
+    ops.append(("validate",))
+    if variant == "mix":
+        for xid in extras:
+            ops.append(("remove", xid))
+        extras = []
+        ops.append(("validate",))
+    for fid in replaced:
+        ops.append(("add", fid, final[fid]))
+    if extras:
+        ops.append(("validate",))
+        for xid in extras:
+            ops.append(("remove", xid))
+    return ops
+
+
+def with_histories(gen_fn, every=3):
+    """also run every n-th multi-purpose case as a history that ends in the same project"""
+    def g(rng, tier):
+        cases = gen_fn(rng, tier)
+        hrng = random.Random(rng.randrange(1 << 30))
+        extra = []
+        for i, c in enumerate(cases):
+            if i % every == 0 and c.get("files") and not c.get("ops"):
+                fids = [f for f, _ in c["files"]]
+                if len(set(fids)) != len(fids):
+                    continue
+                h = dict(c, name=c["name"] + "_h", ops=historize(c["files"], hrng))
+                extra.append(h)
+        return cases + extra
+    g.rule_suffix = (f"; one case in {every} also runs as a history that ends in the same contents (items first added under the same id and "
+                     "key with another kind, files defining an imported key added and removed again, validate() in between; the last step "
+                     "before the final validate() is a replacement or a removal)")
+    return g
